@@ -3,6 +3,7 @@
 //	c09 <configs.ndjson> <observed.ndjson> <seed>   build every configuration with graph.Build, start, inject, record
 //	c10 <scripts.ndjson> <observed.ndjson> <seed>   run service.New/Start/Shutdown with scripted failures, record the call log
 //	c10col <scripts.ndjson> <observed.ndjson> <seed>   the same lifetimes through the real otelcol.Collector.Run / Shutdown
+//	c10colreload ...                                   the same, the scripted configuration being brought up by a configuration reload
 package main
 
 import (
@@ -28,6 +29,8 @@ func main() {
 		err = runC10(os.Args[2], os.Args[3], seed)
 	case "c10col":
 		err = runC10Col(os.Args[2], os.Args[3], seed)
+	case "c10colreload":
+		err = runC10ColReload(os.Args[2], os.Args[3], seed)
 	default:
 		err = fmt.Errorf("unknown mode %q", os.Args[1])
 	}
